@@ -128,10 +128,39 @@ pub fn kind_annotation(knd: &NodeKind, p: &Interpreter) -> MResult<Kind> {
   }
 }
 
+// The digits of an integer token as a value of the wide integer kind `target`, if they fit it exactly.
+#[cfg(feature = "convert")]
+fn exact_integer_literal(ltrl: &Literal, target: &ValueKind) -> Option<Value> {
+  let digits: String = match ltrl {
+    Literal::Number(Number::Real(RealNumber::Integer(tkn))) => tkn.chars.iter().filter(|c| **c != '_').collect(),
+    _ => return None,
+  };
+  match target {
+    #[cfg(feature = "u64")]
+    ValueKind::U64 => digits.parse::<u64>().ok().map(|v| Value::U64(Ref::new(v))),
+    #[cfg(feature = "i64")]
+    ValueKind::I64 => digits.parse::<i64>().ok().map(|v| Value::I64(Ref::new(v))),
+    #[cfg(feature = "u128")]
+    ValueKind::U128 => digits.parse::<u128>().ok().map(|v| Value::U128(Ref::new(v))),
+    #[cfg(feature = "i128")]
+    ValueKind::I128 => digits.parse::<i128>().ok().map(|v| Value::I128(Ref::new(v))),
+    _ => None,
+  }
+}
+
 #[cfg(feature = "convert")]
 pub fn typed_literal(ltrl: &Literal, knd_attn: &KindAnnotation, p: &Interpreter) -> MResult<Value> {
-  let value = literal(ltrl,p)?;
   let kind = kind_annotation(&knd_attn.kind, p)?;
+  // Integer digits annotated with a 64/128-bit integer kind are parsed as that kind: their f64 image
+  // (how every untyped integer is evaluated) rounds anything above 2^53, so 9007199254740993u64 was ...992.
+  let exact = match kind.to_value_kind(&p.state.borrow().kinds) {
+    Ok(target) => exact_integer_literal(ltrl, &target),
+    Err(_) => None,
+  };
+  let value = match exact {
+    Some(value) => value,
+    None => literal(ltrl,p)?,
+  };
   let args = vec![value, kind.to_value(&p.state.borrow().kinds)?];
   let convert_fxn = ConvertKind{}.compile(&args)?;
   convert_fxn.solve();
